@@ -216,6 +216,21 @@ def scenario(ctx):
 			desc = dict(fn=fn, container=kind, team=team, tpol=tp, opol=op)
 			chunk_regime = idx_regime = out_regime = None
 			from ..harness import knob_defaults
+			# file-backed references: sometimes a read fails once (I/O error / Ctrl-C) in a first attempt; the attempt may
+			# fail, and the same open collection must then still give the right cells
+			if kind.startswith('hdf5') and ch.flip(0.2, L + '.read_fault'):
+				from ..seams.h5fault import read_fault
+				exc_t = ch.pick([OSError, KeyboardInterrupt], L + '.read_fault_exc')
+				with read_fault(ch.int(1, 6, L + '.read_fault_k'), exc_t) as rf:
+					try:
+						jaccarddist_matrix(list(queries_t[:2]), refs_c, chunksize=ch.pick([None, 2, 3], L + '.rf_chunk'))
+						sub = refs_c[[nref - 1, 0]] if nref > 1 else refs_c[[0]]
+						[np.asarray(sub[i]) for i in range(len(sub))]
+					except (OSError, KeyboardInterrupt):
+						pass
+				if rf.fired:
+					ctx.fault('hdf5_read_error_once' if exc_t is OSError else 'hdf5_read_interrupted_once')
+			from ..harness import knob_defaults
 			with omp.Armed(ctx, oseed, tp, op) as armed, knob_defaults(ctx, ch, L):
 				if fn == 'array':
 					q = ch.int(0, nq - 1, L + '.q')
@@ -247,17 +262,27 @@ def scenario(ctx):
 					cs = ch.pick(['none', 'small', 'exact', 'big'], L + '.chunk')
 					chunksize = dict(none=None, small=ch.int(1, max(1, ncols), L + '.cs'), exact=max(1, ncols), big=ncols + ch.int(1, 3, L + '.cs2'))[cs]
 					chunk_regime = cs if cs != 'small' else ('small' if chunksize < ncols else 'exact')
-					qkind = ch.pick(['list', 'SignatureList', 'SignatureArray'], L + '.qcontainer')
-					if qkind == 'list':
+					qkind = ch.pick(['list', 'SignatureList', 'SignatureArray', 'subset_of_refs'], L + '.qcontainer')
+					queries_used = queries_t
+					if qkind == 'subset_of_refs' and not isinstance(refs_c, list):
+						# the queries are themselves a selection taken from the reference container (all-vs-subset use)
+						qsel, _ = _indices(ch, nref, L + '.qsel', allow_none=False)
+						if len(qsel) == 0:
+							qsel = [0]
+						qsel = np.asarray(qsel).astype(np.intp)
+						qs = _guard(ctx, dict(desc, sub='query subset'), refs_c.__getitem__, qsel)
+						queries_used = [refs_t[int(i)] for i in qsel]
+						ctx.probe('queries_are_subset_of_reference_container')
+					elif qkind in ('list', 'subset_of_refs'):
 						qs = list(queries_t)
 					else:
 						from gambit.sigs.base import SignatureArray, SignatureList
 						from gambit.kmers import KmerSpec
 						qs = (SignatureList if qkind == 'SignatureList' else SignatureArray)(queries_t, KmerSpec(11, 'ATGAC'), dtype=np.dtype(qdt))
-					out, out_regime, poison = _out_buffer(ch, (nq, ncols), L + '.out')
+					out, out_regime, poison = _out_buffer(ch, (len(queries_used), ncols), L + '.out')
 					desc.update(idx=idx_regime, chunksize=chunksize)
 					res = _guard(ctx, desc, jaccarddist_matrix, qs, refs_c, ref_indices=sel, out=out, chunksize=chunksize, progress=progress)
-					exp = _expected_matrix(queries_t, refs_t, sel)
+					exp = _expected_matrix(queries_used, refs_t, sel)
 					desc.update(chunksize=chunksize, ncols=ncols, idx=idx_regime, n=ncols)
 					if chunksize is not None and chunksize < ncols:
 						ctx.probe('chunk_smaller_than_references')
